@@ -157,6 +157,23 @@ fn gen_history(ctx: &Ctx, rng: &mut Rng, screen: &mut Screen) -> (History, CwdPl
     k.min_eligible = rng.range(0, 2);
     let analysed = "/w/contracts";
     let info = gen::gen_tree(rng, screen, &mut world, analysed, &k);
+    // sometimes a run is made to fail in the middle of the walk: an eligible file whose read fails,
+    // or one the parser rejects (the file-system effects of a failing run are judged all the same)
+    if !info.eligible.is_empty() {
+        match rng.below(12) {
+            0 => {
+                let p = rng.pick(&info.eligible).clone();
+                if let Some((b, _)) = world.file(&p).map(|(b, f)| (b.clone(), f)) {
+                    world.put_file(&p, b, if rng.chance(1, 2) { Fault::Eio } else { Fault::Eacces });
+                }
+            }
+            1 => {
+                let p = rng.pick(&info.eligible).clone();
+                world.put_file(&p, b"pragma solidity 0.8.16;\ncontract { broken ((\n".to_vec(), Fault::None);
+            }
+            _ => {}
+        }
+    }
     // bystanders that must stay untouched
     world.put_file("/w/README.md", b"readme\n".to_vec(), Fault::None);
     world.put_file("/home/u/notes.txt", b"notes\n".to_vec(), Fault::None);
